@@ -1,3 +1,5 @@
+import HcipyVerif.Model.FftIndex2
+
 /-!
 # C04 — executable bookkeeping of `FresnelPropagator` / `AngularSpectrumPropagator` (core Lean only)
 
@@ -86,6 +88,24 @@ def cutout (p : Params) : Option (Nat × Nat × Nat × Nat) :=
   if mx p = p.nx ∧ my p = p.ny then none
   else some (cutStart (my p) p.ny, cutStart (my p) p.ny + p.ny, cutStart (mx p) p.nx, cutStart (mx p) p.nx + p.nx)
 
+/-- Internal index (one axis) of input index `i`: `internal[start + i] = input[i]`, `start = cutStart M N`.
+This is the map the slice `start : start+N` of `FourierFilter.cutout` realises; with nothing padded
+(`M = N`) `start = 0` and it is the identity (the code then skips the copy altogether). -/
+def embAxis (M N i : Nat) : Nat := cutStart M N + i
+
+/-- Internal row of input row `iy` / internal column of input column `ix`. -/
+def embY (p : Params) (iy : Nat) : Nat := embAxis (my p) p.ny iy
+def embX (p : Params) (ix : Nat) : Nat := embAxis (mx p) p.nx ix
+
+/-- The complete cut-out as the driver prints it: internal rows of input rows `0 … ny-1`, internal columns
+of input columns `0 … nx-1` (the embedding is the product of the two). -/
+def embRows (p : Params) : List Nat := (List.range p.ny).map (embY p)
+def embCols (p : Params) : List Nat := (List.range p.nx).map (embX p)
+
+/-- What the driver (and hcipy's constructors) insist on: a non-empty grid and padding factors `≥ 1`. -/
+def padOK (p : Params) : Bool :=
+  decide (0 < p.nx) && decide (0 < p.ny) && decide (1 ≤ effQx p) && decide (1 ≤ effQy p)
+
 /-- Spacing of the internal frequency grid in cycles per unit: `1/(δ M)` (`Δk = 2π` times this). -/
 def nuDelta (δ : Rat) (M : Nat) : Rat := 1 / (δ * (M : Rat))
 
@@ -112,6 +132,10 @@ def frac (q : Rat) : Rat := q - (q.floor : Rat)
 def subFreqs (p : Params) (ix iy : Nat) : List (Rat × Rat) :=
   (dithers p.sy).flatMap fun dy => (dithers p.sx).map fun dx =>
     (nu p.dx (mx p) ix dx, nu p.dy (my p) iy dy)
+
+/-- `np.fft.ifftshift` along one axis of length `M`: `ifftshift(a)[q] = a[(q + ⌊M/2⌋) mod M]` — the centred index
+whose transfer-function sample multiplies FFT bin `q`. -/
+def ifftshiftIdx (M q : Nat) : Nat := (q + M / 2) % M
 
 /-- Fresnel: phases (turns mod 1) of the sub-samples whose mean is the transfer function at `(ix,iy)`. -/
 def fresnelSubTurns (p : Params) (ix iy : Nat) : List Rat :=
@@ -174,6 +198,228 @@ def minRadicand (p : Params) : Rat :=
 
 /-- No evanescent wave is sampled (`k_z` real everywhere). -/
 def noEvanescent (p : Params) : Bool := decide (0 ≤ minRadicand p)
+
+/-! ### Stokes-`I` intensity of a Jones-matrix wavefront with an input Stokes vector
+
+`Wavefront.I` (hcipy/optics/wavefront.py l.121-139), written exactly as the code writes it, for the Jones
+matrix `(x y; z w)` (real and imaginary parts separately) and the Stokes vector `(a, b, c, d)`; polymorphic in
+the scalar so that the driver runs it at `Rat` and `stokes_power_nonincreasing` is about it at `ℝ`. -/
+
+def stokesI {K : Type} [Add K] [Sub K] [Mul K] [Neg K] [Div K] [OfNat K 2]
+    (a b c d xr xi yr yi zr zi wr wi : K) : K :=
+  let m11 := (xr * xr + xi * xi) + (yr * yr + yi * yi) + (zr * zr + zi * zi) + (wr * wr + wi * wi)
+  let m12 := (xr * xr + xi * xi) - (yr * yr + yi * yi) + (zr * zr + zi * zi) - (wr * wr + wi * wi)
+  let m13 := 2 * (xr * yr + xi * yi + zr * wr + zi * wi)
+  let m14 := 2 * (-xr * yi + xi * yr - zr * wi + zi * wr)
+  (m11 * a + m12 * b + m13 * c + m14 * d) / 2
+
+/-- The Stokes vectors for which `I` is a positive semi-definite form (degree of polarisation `≤ 1`). -/
+def stokesPhysical (a b c d : Rat) : Bool := decide (0 ≤ a) && decide (b * b + c * c + d * d ≤ a * a)
+
+/-! ### matrix-valued transfer function (`FourierFilter` with a tensor transfer function)
+
+`FourierFilter._operation` (fourier_operations.py l.127-139): when the transfer function is a matrix field the
+point-wise product is `field_dot(tf, f)` — at every internal sample the matrix `D` times the vector (or matrix)
+of field components — and the adjoint uses `field_conjugate_transpose(tf)`.  Polymorphic in the scalar: the
+driver runs it on Gaussian rationals, `filterM_adjoint` is about it at `ℂ`. -/
+
+/-- `Σ_{j<n} f j`. -/
+def sumFin {K : Type} [Add K] [Zero K] (n : Nat) (f : Fin n → K) : K := ((List.finRange n).map f).sum
+
+/-- `field_dot(D, v)` at one sample: matrix times vector. -/
+def matVec {K : Type} [Add K] [Mul K] [Zero K] {n : Nat} (D : Fin n → Fin n → K) (v : Fin n → K) : Fin n → K :=
+  fun i => sumFin n fun j => D i j * v j
+
+/-- `field_conjugate_transpose(D)` at one sample (`cj` = complex conjugation of the scalar). -/
+def conjT {K : Type} {n : Nat} (cj : K → K) (D : Fin n → Fin n → K) : Fin n → Fin n → K :=
+  fun i j => cj (D j i)
+
+/-- Gaussian rationals: the exact complex numbers the driver computes with. -/
+structure GRat where
+  re : Rat
+  im : Rat
+deriving Repr, DecidableEq
+
+instance : Add GRat := ⟨fun a b => ⟨a.re + b.re, a.im + b.im⟩⟩
+instance : Mul GRat := ⟨fun a b => ⟨a.re * b.re - a.im * b.im, a.re * b.im + a.im * b.re⟩⟩
+instance : Zero GRat := ⟨⟨0, 0⟩⟩
+def GRat.conj (a : GRat) : GRat := ⟨a.re, -a.im⟩
+
+/-- Row-major list of `n²` entries as a matrix, list of `n` entries as a vector (`0` beyond the end). -/
+def matOfList (n : Nat) (l : List GRat) : Fin n → Fin n → GRat := fun i j => l.getD (i.val * n + j.val) 0
+def vecOfList (n : Nat) (l : List GRat) : Fin n → GRat := fun i => l.getD i.val 0
+def listOfVec {n : Nat} (v : Fin n → GRat) : List GRat := (List.finRange n).map v
+
+/-- `field_dot(D, v)` (`adjoint = false`) or `field_dot(field_conjugate_transpose(D), v)` (`adjoint = true`)
+at one sample, entries as lists. -/
+def mdot (n : Nat) (adjoint : Bool) (D v : List GRat) : List GRat :=
+  let Dm := matOfList n D
+  listOfVec (matVec (if adjoint then conjT GRat.conj Dm else Dm) (vecOfList n v))
+
+/-! ### The `FourierFilter._operation` pipeline itself (fourier_operations.py l.88-153), executable
+
+`f[:] = 0; f[cutout] = field` → `fftn` → multiply by the `ifftshift`ed transfer function → `ifftn` → `[cutout]`.
+Polymorphic in the scalar and in the DFT kernels (`Fft.dft2`, the specification of `fftn` shared with C01/C02):
+the driver op `filt` runs *these definitions* on Gaussian rationals with the exact kernels of the sizes 1, 2, 4
+(`gKerF`, `gKerB`: powers of `i`) and the harness compares the output with the real `FourierFilter.forward/backward`;
+at `ℂ` with the kernels `exp(∓2πi n/M)` they are the operator `filter (dftPair2 …) (cutoutEmb p h)` of the theorems
+(`filter_dft2_eq_filterP` in `Properties/C04.lean`). -/
+
+section pipeline
+variable {C : Type} [Zero C] [Add C] [Mul C]
+
+/-- `internal[:] = 0; internal[sy:sy+ny, sx:sx+nx] = f`. -/
+def padAt (sy sx ny nx : Nat) (f : Nat → Nat → C) (py px : Nat) : C :=
+  if (sy ≤ py ∧ py < sy + ny) ∧ (sx ≤ px ∧ px < sx + nx) then f (py - sy) (px - sx) else 0
+
+/-- `internal[sy:sy+ny, sx:sx+nx]`. -/
+def cropAt (sy sx : Nat) (a : Nat → Nat → C) (ky kx : Nat) : C := a (sy + ky) (sx + kx)
+
+/-- `np.fft.ifftshift(transfer_function)`: the array that multiplies FFT bin `(qy,qx)`, from the centred one. -/
+def shiftD (My Mx : Nat) (Dc : Nat → Nat → C) (qy qx : Nat) : C := Dc (ifftshiftIdx My qy) (ifftshiftIdx Mx qx)
+
+/-- `FourierFilter._operation`: `crop (scale · ifftn (D · fftn (pad x)))`; `D` in FFT layout, `scale = 1/(My·Mx)`,
+`kF*` / `kB*` the forward / inverse DFT kernels of the two axes. -/
+def filterN (My Mx : Nat) (kFy kFx kBy kBx : Int → C) (scale : C) (sy sx ny nx : Nat)
+    (D x : Nat → Nat → C) : Nat → Nat → C :=
+  cropAt sy sx fun qy qx => scale * Fft.dft2 My Mx kBy kBx
+    (fun py px => D py px * Fft.dft2 My Mx kFy kFx (padAt sy sx ny nx x) py px) qy qx
+
+/-- `FourierFilter.backward`: the same pipeline with the conjugated transfer function (`cj` = conjugation). -/
+def filterNBackward (cj : C → C) (My Mx : Nat) (kFy kFx kBy kBx : Int → C) (scale : C) (sy sx ny nx : Nat)
+    (D x : Nat → Nat → C) : Nat → Nat → C :=
+  filterN My Mx kFy kFx kBy kBx scale sy sx ny nx (fun py px => cj (D py px)) x
+
+/-- The pipeline with the sizes and the cut-out of the propagator / filter described by `p`. -/
+def filterP (p : Params) (kFy kFx kBy kBx : Int → C) (scale : C) (D x : Nat → Nat → C) : Nat → Nat → C :=
+  filterN (my p) (mx p) kFy kFx kBy kBx scale (cutStart (my p) p.ny) (cutStart (mx p) p.nx) p.ny p.nx D x
+
+def filterPBackward (cj : C → C) (p : Params) (kFy kFx kBy kBx : Int → C) (scale : C) (D x : Nat → Nat → C) :
+    Nat → Nat → C :=
+  filterNBackward cj (my p) (mx p) kFy kFx kBy kBx scale (cutStart (my p) p.ny) (cutStart (mx p) p.nx) p.ny p.nx D x
+
+end pipeline
+
+/-- `i^k` as a Gaussian rational. -/
+def gPowI (k : Int) : GRat :=
+  match (k % 4).toNat with
+  | 0 => ⟨1, 0⟩
+  | 1 => ⟨0, 1⟩
+  | 2 => ⟨-1, 0⟩
+  | _ => ⟨0, -1⟩
+
+/-- Inverse-DFT kernel `exp(+2πi n/M)` for `M ∣ 4` (exact: a power of `i`). -/
+def gKerB (M : Nat) (n : Int) : GRat := gPowI (n * ((4 / M : Nat) : Int))
+
+/-- Forward-DFT kernel `exp(-2πi n/M)` for `M ∣ 4`. -/
+def gKerF (M : Nat) (n : Int) : GRat := gPowI (-(n * ((4 / M : Nat) : Int)))
+
+/-- Row-major list (row length `w`) as an array (`0` beyond the end). -/
+def gratArr (w : Nat) (l : List GRat) : Nat → Nat → GRat := fun iy ix => l.getD (iy * w + ix) 0
+
+/-- What the driver op `filt` computes: `FourierFilter(grid, D, q).forward(x)` (`back = false`) or `.backward(x)`
+for the filter described by `p` (internal sizes in `{1,2,4}`), `D` the centred transfer function on the internal
+grid (row-major, `My·Mx` entries), `x` the input (row-major, `ny·nx` entries); output row-major. -/
+def filtOp (p : Params) (back : Bool) (D x : List GRat) : List GRat :=
+  let My := my p
+  let Mx := mx p
+  let sc : GRat := ⟨1 / ((My * Mx : Nat) : Rat), 0⟩
+  let Ds := shiftD My Mx (gratArr Mx D)
+  let r := if back then filterPBackward GRat.conj p (gKerF My) (gKerF Mx) (gKerB My) (gKerB Mx) sc Ds (gratArr p.nx x)
+           else filterP p (gKerF My) (gKerF Mx) (gKerB My) (gKerB Mx) sc Ds (gratArr p.nx x)
+  (List.range p.ny).flatMap fun iy => (List.range p.nx).map fun ix => r iy ix
+
+/-! ### the same pipeline on formal phase sums: any internal size
+
+`Fft.PSum` (`Model/FftIndex.lean`, the scalar type the C01 driver runs the FFT pipeline at): finite sums of
+`c·exp(2πi t)`, `c, t` rational, exact `+` and `·`.  The DFT kernels of *every* size are monomials, a Gaussian rational
+`a + b i` is `a + b·exp(2πi/4)`.  The driver op `filtp` runs `filterP` / `filterPBackward` at this scalar type;
+`filtp_*_denotes_complex_pipeline` (Properties) says its output evaluates to the complex pipeline of the theorems. -/
+
+def psumOfGRat (g : GRat) : Fft.PSum := Fft.PSum.ofRat g.re + Fft.PSum.ofRat g.im * Fft.PSum.turns (1 / 4)
+
+/-- complex conjugation of a formal phase sum: negate every phase -/
+def psumConj (a : Fft.PSum) : Fft.PSum := ⟨a.terms.map fun x => ⟨x.c, Fft.fracPart (-x.t), -x.r⟩⟩
+
+/-- forward / inverse DFT kernels `exp(∓2πi n/M)` as formal phases -/
+def pKerF (M : Nat) (n : Int) : Fft.PSum := Fft.PSum.turns (-((n : Rat) / (M : Rat)))
+def pKerB (M : Nat) (n : Int) : Fft.PSum := Fft.PSum.turns ((n : Rat) / (M : Rat))
+
+/-- What the driver op `filtp` computes (as `filtOp`, any internal size): one formal phase sum per output pixel. -/
+def filtOpP (p : Params) (back : Bool) (D x : List GRat) : List Fft.PSum :=
+  let My := my p
+  let Mx := mx p
+  let sc := Fft.PSum.ofRat (1 / ((My * Mx : Nat) : Rat))
+  let Ds := shiftD My Mx (fun a b => psumOfGRat (gratArr Mx D a b))
+  let xs := fun a b => psumOfGRat (gratArr p.nx x a b)
+  let r := if back then filterPBackward psumConj p (pKerF My) (pKerF Mx) (pKerB My) (pKerB Mx) sc Ds xs
+           else filterP p (pKerF My) (pKerF Mx) (pKerB My) (pKerB Mx) sc Ds xs
+  (List.range p.ny).flatMap fun iy => (List.range p.nx).map fun ix => r iy ix
+
+/-! ### the Fresnel propagator itself, exactly
+
+On the transfer-function branch the Fresnel transfer function at an internal pixel is the mean of `exp(2πi t)` over the
+rational phases `fresnelSubTurns` — a formal phase sum.  So the whole `FresnelPropagator.forward` is computed exactly. -/
+
+/-- mean of `exp(2πi t)` over a list of phases in turns -/
+def psumMeanTurns (l : List Rat) : Fft.PSum :=
+  Fft.PSum.ofRat (1 / (l.length : Rat)) * (l.map Fft.PSum.turns).foldr (· + ·) 0
+
+/-- the Fresnel transfer function that multiplies FFT bin `(qy,qx)` (`ifftshift` applied), as a formal phase sum -/
+def fresnelTFP (p : Params) (qy qx : Nat) : Fft.PSum :=
+  psumMeanTurns (fresnelSubTurns p (ifftshiftIdx (mx p) qx) (ifftshiftIdx (my p) qy))
+
+/-- What the driver op `prop` computes: `FresnelPropagator(...).forward(x)` / `.backward(x)` (transfer-function branch) on
+formal phase sums; `x` row-major `ny·nx` Gaussian rationals. -/
+def propOpP (p : Params) (back : Bool) (x : List GRat) : List Fft.PSum :=
+  let My := my p
+  let Mx := mx p
+  let sc := Fft.PSum.ofRat (1 / ((My * Mx : Nat) : Rat))
+  let xs := fun a b => psumOfGRat (gratArr p.nx x a b)
+  let r := if back then filterPBackward psumConj p (pKerF My) (pKerF Mx) (pKerB My) (pKerB Mx) sc (fresnelTFP p) xs
+           else filterP p (pKerF My) (pKerF Mx) (pKerB My) (pKerB Mx) sc (fresnelTFP p) xs
+  (List.range p.ny).flatMap fun iy => (List.range p.nx).map fun ix => r iy ix
+
+/-! ### the pipeline with a matrix-valued transfer function (`field_dot(tf, ·)` between the transforms) -/
+
+section pipelineM
+variable {C : Type} [Zero C] [Add C] [Mul C] {n : Nat}
+
+/-- `FourierFilter._operation` with a tensor transfer function on a vector field: component `t` of
+`crop (scale · ifftn (field_dot(D, fftn (pad x))))`; `D py px` is the matrix at internal sample `(py,px)` (FFT layout). -/
+def filterMN (My Mx : Nat) (kFy kFx kBy kBx : Int → C) (scale : C) (sy sx ny nx : Nat)
+    (D : Nat → Nat → Fin n → Fin n → C) (x : Fin n → Nat → Nat → C) : Fin n → Nat → Nat → C :=
+  fun t => cropAt sy sx fun qy qx => scale * Fft.dft2 My Mx kBy kBx
+    (fun py px => matVec (D py px) (fun j => Fft.dft2 My Mx kFy kFx (padAt sy sx ny nx (x j)) py px) t) qy qx
+
+/-- `.backward`: the same with `field_conjugate_transpose(D)`. -/
+def filterMNBackward (cj : C → C) (My Mx : Nat) (kFy kFx kBy kBx : Int → C) (scale : C) (sy sx ny nx : Nat)
+    (D : Nat → Nat → Fin n → Fin n → C) (x : Fin n → Nat → Nat → C) : Fin n → Nat → Nat → C :=
+  filterMN My Mx kFy kFx kBy kBx scale sy sx ny nx (fun py px => conjT cj (D py px)) x
+
+def filterMP (p : Params) (kFy kFx kBy kBx : Int → C) (scale : C)
+    (D : Nat → Nat → Fin n → Fin n → C) (x : Fin n → Nat → Nat → C) : Fin n → Nat → Nat → C :=
+  filterMN (my p) (mx p) kFy kFx kBy kBx scale (cutStart (my p) p.ny) (cutStart (mx p) p.nx) p.ny p.nx D x
+
+def filterMPBackward (cj : C → C) (p : Params) (kFy kFx kBy kBx : Int → C) (scale : C)
+    (D : Nat → Nat → Fin n → Fin n → C) (x : Fin n → Nat → Nat → C) : Fin n → Nat → Nat → C :=
+  filterMNBackward cj (my p) (mx p) kFy kFx kBy kBx scale (cutStart (my p) p.ny) (cutStart (mx p) p.nx) p.ny p.nx D x
+
+end pipelineM
+
+/-- What the driver op `filtmp` computes: `FourierFilter(grid, D, q).forward(x)` / `.backward(x)` for an `n×n` matrix
+transfer function `D` (centred; list index `(i·n + j)·My·Mx + pixel`) and a vector field `x` (list index
+`t·ny·nx + pixel`), on formal phase sums; output index `t·ny·nx + pixel`. -/
+def filtMOpP (p : Params) (n : Nat) (back : Bool) (D x : List GRat) : List Fft.PSum :=
+  let My := my p
+  let Mx := mx p
+  let sc := Fft.PSum.ofRat (1 / ((My * Mx : Nat) : Rat))
+  let Dc : Nat → Nat → Fin n → Fin n → Fft.PSum := fun a b i j => psumOfGRat (D.getD ((i.val * n + j.val) * (My * Mx) + (a * Mx + b)) 0)
+  let Ds : Nat → Nat → Fin n → Fin n → Fft.PSum := fun qy qx => Dc (ifftshiftIdx My qy) (ifftshiftIdx Mx qx)
+  let xs : Fin n → Nat → Nat → Fft.PSum := fun t a b => psumOfGRat (x.getD (t.val * (p.ny * p.nx) + (a * p.nx + b)) 0)
+  let r := if back then filterMPBackward psumConj p (pKerF My) (pKerF Mx) (pKerB My) (pKerB Mx) sc Ds xs
+           else filterMP p (pKerF My) (pKerF Mx) (pKerB My) (pKerB Mx) sc Ds xs
+  (List.finRange n).flatMap fun t => (List.range p.ny).flatMap fun iy => (List.range p.nx).map fun ix => r t iy ix
 
 /-! ### One propagator object used repeatedly: the setters between calls
 
